@@ -30,13 +30,18 @@ type WireFault struct {
 }
 
 type E2ECase struct {
-	Version   uint16      `json:"version"`
-	Suite     uint16      `json:"suite"`
-	Key       string      `json:"key"`
-	Dir       int         `json:"dir"`    // 0: client writes, server reads; 1: server writes, client reads
-	Writes    []int       `json:"writes"` // sizes of the successive Write calls
-	Fill      uint8       `json:"fill"`
-	Seg       []int       `json:"seg"` // reader-side transport segmentation (cyclic segment sizes, 0 = unlimited)
+	Version uint16 `json:"version"`
+	Suite   uint16 `json:"suite"`
+	Key     string `json:"key"`
+	Dir     int    `json:"dir"`    // 0: client writes, server reads; 1: server writes, client reads
+	Writes  []int  `json:"writes"` // sizes of the successive Write calls
+	Fill    uint8  `json:"fill"`
+	Seg     []int  `json:"seg"` // reader-side transport segmentation (cyclic segment sizes, 0 = unlimited)
+	// ReadSizes: sizes of the buffers handed to the reader's successive Read calls (cyclic;
+	// empty = one 40000-byte buffer, larger than any record).  Small buffers leave part of a
+	// record pending inside the connection between Read calls.  Used only when the case
+	// plans no wire fault (see the read loop).
+	ReadSizes []int       `json:"read_sizes,omitempty"`
 	NoDynamic bool        `json:"no_dynamic,omitempty"`
 	NoBeast   bool        `json:"no_beast,omitempty"`
 	Faults    []WireFault `json:"faults,omitempty"`
@@ -212,7 +217,15 @@ func checkE2E(c E2ECase, r *kit.R) {
 		rdEnd.Drain()
 		buf := make([]byte, 40000)
 		for {
-			n, err := rd.Read(buf)
+			b := buf
+			// only without planned faults: the tamper oracle below counts delivered records
+			// as Read calls, which needs a buffer that holds a whole record
+			if len(c.ReadSizes) > 0 && len(c.Faults) == 0 {
+				if sz := c.ReadSizes[len(reads)%len(c.ReadSizes)]; sz > 0 && sz < len(buf) {
+					b = buf[:sz]
+				}
+			}
+			n, err := rd.Read(b)
 			if n > 0 {
 				delivered = append(delivered, buf[:n]...)
 				reads = append(reads, n)
@@ -221,7 +234,7 @@ func checkE2E(c E2ECase, r *kit.R) {
 				termErr = err
 				break
 			}
-			if len(reads) > 100000 {
+			if len(reads) > 100000+2*len(sent) {
 				termErr = fmt.Errorf("harness: reader does not terminate")
 				break
 			}
@@ -313,7 +326,7 @@ func checkE2E(c E2ECase, r *kit.R) {
 	if !tampered {
 		r.Class("no-effective-fault")
 		if !bytes.Equal(delivered, sent) {
-			r.Failf("C25:e2e:data-lost", "%s %#04x no fault, writes %v, segmentation %v: %d of %d bytes delivered, then %v", versionName(c.Version), c.Suite, c.Writes, c.Seg, len(delivered), len(sent), termErr)
+			r.Failf("C25:e2e:data-lost", "%s %#04x no fault, writes %v, segmentation %v read sizes %v: %d of %d bytes delivered, then %v", versionName(c.Version), c.Suite, c.Writes, c.Seg, c.ReadSizes, len(delivered), len(sent), termErr)
 		}
 		if termErr != io.EOF {
 			r.Failf("C25:e2e:no-clean-eof", "%s %#04x no fault: all data delivered but the stream ended with %v instead of io.EOF (close_notify)", versionName(c.Version), c.Suite, termErr)
@@ -380,6 +393,13 @@ func genE2E(t *rapid.T) E2ECase {
 		}
 	case 3:
 		c.Seg = []int{5, 0} // header alone, then the rest
+	}
+	// reader buffer sizes: half of the cases keep the single large buffer
+	if rapid.Bool().Draw(t, "small-reads") {
+		k := rapid.IntRange(1, 3).Draw(t, "nread")
+		for i := 0; i < k; i++ {
+			c.ReadSizes = append(c.ReadSizes, rapid.SampledFrom([]int{1, 2, 7, 100, 1000, 5000, 16383, 16384, 40000}).Draw(t, "readsize"))
+		}
 	}
 	nf := rapid.SampledFrom([]int{0, 1, 1, 1, 1, 2, 3}).Draw(t, "nfaults")
 	for i := 0; i < nf; i++ {
